@@ -99,6 +99,14 @@ pub enum BatchMode {
     SizeHint,
     /// input handed over as a `Vec<f64>` (not the simulator's feed), collected
     VecInput,
+    /// `skip(k)` then collect
+    Skip(usize),
+    /// `step_by(k)` (k >= 1) then collect
+    StepBy(usize),
+    /// `peekable()`, alternating `peek()` and `next()`
+    Peekable,
+    /// `by_ref().take(k)` collected, then the rest of the same iterator collected
+    ByRefTake(usize),
 }
 
 #[derive(Clone, Debug)]
@@ -820,11 +828,16 @@ pub enum Profile {
 }
 
 pub fn gen_scenario(rng: &mut Rng, profile: Profile, tier: Tier) -> CursorScn {
-    let nfuncs = match rng.below(10) {
+    let mut nfuncs = match rng.below(10) {
         0..=6 => 1,
         7..=8 => 2,
         _ => 3,
     };
+    // a crowd: many functions and many live clients at once (tables indexed by client, shared arenas)
+    let crowd = rng.chance(1, 50);
+    if crowd {
+        nfuncs = rng.usize_in(3, 5);
+    }
     let allow_long = tier == Tier::Thorough || rng.chance(1, 4);
     // C16 also monitors "no operation panics on well-formed input": its base histories use
     // library-produced function sources far more often.
@@ -855,11 +868,15 @@ pub fn gen_scenario(rng: &mut Rng, profile: Profile, tier: Tier) -> CursorScn {
         };
     }
     let mut steer: Vec<Vec<f64>> = funcs.iter().map(steering_ends).collect();
-    let nclients = match rng.below(10) {
-        0..=4 => 1,
-        5..=7 => 2,
-        8 => 3,
-        _ => 4,
+    let nclients = if crowd {
+        rng.usize_in(4, 9)
+    } else {
+        match rng.below(10) {
+            0..=4 => 1,
+            5..=7 => 2,
+            8 => 3,
+            _ => 4,
+        }
     };
     let mut clients = Vec::new();
     for _ in 0..nclients {
@@ -905,8 +922,8 @@ pub fn gen_scenario(rng: &mut Rng, profile: Profile, tier: Tier) -> CursorScn {
             if rng.chance(1, 100) {
                 nev = rng.usize_in(100, 1500);
             }
-            // thorough tier only: a handful of very long histories
-            if tier == Tier::Thorough && rng.chance(1, 200_000) {
+            // a handful of very long histories (16-bit query counters wrap at 65 536)
+            if rng.chance(1, 100_000) {
                 nev = rng.usize_in(20_000, 100_000);
             }
         }
@@ -1032,7 +1049,13 @@ pub fn gen_scenario(rng: &mut Rng, profile: Profile, tier: Tier) -> CursorScn {
                 0 => 0,
                 1..=12 => rng.usize_in(1, 6),
                 13..=18 => rng.usize_in(7, 24),
-                _ => rng.usize_in(25, 300),
+                _ => {
+                    if rng.chance(1, 60) {
+                        rng.usize_in(1000, 70_000)
+                    } else {
+                        rng.usize_in(25, 300)
+                    }
+                }
             };
             let mut xs: Vec<f64> = Vec::with_capacity(len);
             let mut prev = None;
@@ -1058,7 +1081,13 @@ pub fn gen_scenario(rng: &mut Rng, profile: Profile, tier: Tier) -> CursorScn {
                 1 => BatchMode::Fold,
                 2 => BatchMode::Count,
                 3 => BatchMode::Last,
-                4 | 5 => BatchMode::Nth(rng.usize_in(0, len.max(1))),
+                4 => BatchMode::Nth(rng.usize_in(0, len.max(1))),
+                5 => match rng.below(4) {
+                    0 => BatchMode::Skip(rng.usize_in(0, len.max(1))),
+                    1 => BatchMode::StepBy(rng.usize_in(1, 9)),
+                    2 => BatchMode::Peekable,
+                    _ => BatchMode::ByRefTake(rng.usize_in(0, len.max(1))),
+                },
                 6 => BatchMode::SizeHint,
                 _ => BatchMode::VecInput,
             };
@@ -1158,6 +1187,10 @@ pub fn order_type(ends_per_func: &[Vec<f64>], scn: &CursorScn) -> u64 {
             BatchMode::Nth(k) => 16 + k as u64,
             BatchMode::SizeHint => 4,
             BatchMode::VecInput => 5,
+            BatchMode::Peekable => 6,
+            BatchMode::Skip(k) => (1 << 20) + k as u64,
+            BatchMode::StepBy(k) => (2 << 20) + k as u64,
+            BatchMode::ByRefTake(k) => (3 << 20) + k as u64,
         });
         for &x in &b.xs {
             d.word(rank(x));
@@ -1543,6 +1576,10 @@ pub fn scn_to_json(scn: &CursorScn) -> Value {
                 BatchMode::Nth(k) => json!({"nth": k}),
                 BatchMode::SizeHint => json!("size_hint+collect"),
                 BatchMode::VecInput => json!("vec_input+collect"),
+                BatchMode::Peekable => json!("peekable"),
+                BatchMode::Skip(k) => json!({"skip": k}),
+                BatchMode::StepBy(k) => json!({"step_by": k}),
+                BatchMode::ByRefTake(k) => json!({"by_ref_take": k}),
             },
             "xs": fj_list(&b.xs),
         })).collect::<Vec<_>>(),
@@ -1619,8 +1656,12 @@ pub fn scn_from_json(v: &Value) -> Result<CursorScn, String> {
                         "last" => BatchMode::Last,
                         "size_hint+collect" => BatchMode::SizeHint,
                         "vec_input+collect" => BatchMode::VecInput,
+                        "peekable" => BatchMode::Peekable,
                         x => return Err(format!("bad consume_with {x}")),
                     },
+                    Some(o) if o.get("skip").is_some() => BatchMode::Skip(jusize(o, "skip")?),
+                    Some(o) if o.get("step_by").is_some() => BatchMode::StepBy(jusize(o, "step_by")?.max(1)),
+                    Some(o) if o.get("by_ref_take").is_some() => BatchMode::ByRefTake(jusize(o, "by_ref_take")?),
                     Some(o) => BatchMode::Nth(jusize(o, "nth")?),
                     None => return Err("missing consume_with".into()),
                 };
